@@ -1,1 +1,128 @@
 import Goflow.Spec.Frame
+import Goflow.Producer.Packet
+import Goflow.Generated.Parsers
+/-!
+  C10 — Sampled packet headers are dissected correctly at any capture length.
+-/
+namespace Goflow.C10
+open Goflow Goflow.Producer
+
+/-- the Go variable holding each parser's ParserInfo literal -/
+def goVar : Parser → String
+  | .none => "parserNone" | .ethernet => "parserEthernet" | .dot1q => "parser8021Q" | .mpls => "parserMPLS"
+  | .ipv4 => "parserIPv4" | .ipv6 => "parserIPv6" | .ipv6route => "parserIPv6HeaderRouting"
+  | .ipv6frag => "parserIPv6HeaderFragment" | .tcp => "parserTCP" | .udp => "parserUDP" | .icmp => "parserICMP"
+  | .icmpv6 => "parserICMPv6" | .gre => "parserGRE" | .teredo => "parserTeredoDst" | .geneve => "parserGeneve"
+
+/-- The parser table of the model is the one of producer_packet.go (regenerated on every run):
+    names, configuration keys, layer indices, parser indices and EncapSkip flags; the ethertype and
+    IP-protocol dispatch; the order of the bookkeeping statements of the ParsePacket loop. -/
+theorem parser_table_matches :
+    (Parser.none :: allParsers).map (fun p => (goVar p, p.name, p.keys, p.layerIndex, p.parserIndex, p.encapSkip)) =
+      Goflow.Generated.parserInfos.filter (fun e => e.1 != "parserPayload") ∧
+    Goflow.Generated.etypeDispatch.all (fun e =>
+      (if e.2 = "none" then "parserNone" else e.2) == goVar (nextParserEtype (e.1 / 256) (e.1 % 256)).parser) = true ∧
+    Goflow.Generated.protoDispatch.all (fun e =>
+      (if e.2 = "none" then "parserNone" else e.2) == goVar (nextParserProto e.1).parser) = true ∧
+    Goflow.Generated.parsePacketLoopCond = "nextParser.Parser != nil && len(data) >= offset" ∧
+    Goflow.Generated.parsePacketLoopBody =
+      ["parseConfig.Calls = calls[nextParser.ParserIndex]",
+       "parseConfig.LayerCall = callsLayer[nextParser.LayerIndex]",
+       "res, err := nextParser.Parser(flowMessage.GetFlowMessage(), data[offset:], parseConfig)",
+       "parseConfig.Layer += 1",
+       "if err != nil { return err }",
+       "for-range: custom mapping over nextParser.ConfigKeyList",
+       "fm := flowMessage.GetFlowMessage()",
+       "fm.LayerSize = append(fm.LayerSize, uint32(res.Size))",
+       "if !res.NextParser.EncapSkip && res.NextParser.LayerIndex <= nextParser.LayerIndex { parseConfig.Encapsulated = true }",
+       "calls[nextParser.ParserIndex] += 1",
+       "callsLayer[nextParser.LayerIndex] += 1",
+       "nextParser = res.NextParser",
+       "offset += res.Size"] := by
+  decide +kernel
+
+/-- every constant index or slice bound a parser applies to `data` lies below its own length guard
+    (regenerated from the source: removing or weakening a guard breaks this) -/
+theorem guards_cover_indices :
+    Goflow.Generated.parserGuards.all (fun e => e.2.2 ≤ e.2.1) = true ∧
+    Goflow.Generated.parserGuards.map (fun e => (e.1, e.2.1)) =
+      [("ParseEthernet", 14), ("Parse8021Q", 4), ("ParseMPLS", 4), ("ParseIPv4", 20), ("ParseIPv6", 40),
+       ("ParseIPv6HeaderFragment", 8), ("ParseIPv6HeaderRouting", 8), ("ParseTCP", 20), ("ParseUDP", 8),
+       ("ParseGRE", 4), ("ParseTeredoDst", 0), ("ParseGeneve", 8), ("ParseICMP", 2), ("ParseICMPv6", 2)] := by
+  decide +kernel
+
+/-- the columns of the message other than the layer stack (which every parser extends) -/
+def sameBase (a b : FlowMsg) : Prop := { a with layerStack := [] } = { b with layerStack := [] }
+
+/-- Once `Encapsulated` is set, no parser except the ICMP ones touches any column: fields of tunnelled
+    inner headers (GRE, IP-in-IP, a second Ethernet) never overwrite those of the outer headers. -/
+theorem encap_preserves_outer (p : Parser) (m : FlowMsg) (d : Bytes) (pc : PC)
+    (henc : pc.encapsulated = true) (hp : p ≠ .icmp ∧ p ≠ .icmpv6) :
+    sameBase (runParser p m d pc).msg m := by
+  obtain ⟨h1, h2⟩ := hp
+  cases p <;> simp only [runParser, sameBase] <;> try contradiction
+  all_goals (first
+    | (simp only [tooShort])
+    | (unfold parseEthernet; split <;> simp [tooShort, addLayer, henc])
+    | (unfold parse8021Q; split <;> simp [tooShort, addLayer, henc])
+    | (unfold parseMPLS; split <;> simp [tooShort, addLayer, henc] <;> split <;> simp)
+    | (unfold parseIPv4; split <;> simp [tooShort, addLayer, henc])
+    | (unfold parseIPv6; split <;> simp [tooShort, addLayer, henc])
+    | (unfold parseIPv6HeaderRouting; split <;> simp [tooShort, addLayer, henc])
+    | (unfold parseIPv6HeaderFragment; split <;> simp [tooShort, addLayer, henc])
+    | (unfold parseTCP; split <;> simp [tooShort, addLayer, henc])
+    | (unfold parseUDP; split <;> simp [tooShort, addLayer, henc])
+    | (unfold parseGRE; split <;> simp [tooShort, addLayer])
+    | (unfold parseTeredoDst; simp [addLayer])
+    | (unfold parseGeneve; split <;> simp [tooShort, addLayer]))
+
+/-- ICMP parsers end the chain: no parser runs after them, so an ICMP header can only be the last
+    layer and a second one cannot follow -/
+theorem icmp_terminal (m : FlowMsg) (d : Bytes) (pc : PC) :
+    (parseICMP m d pc).next.callable = false ∧ (parseICMPv6 m d pc).next.callable = false := by
+  constructor
+  · unfold parseICMP; split <;> simp [tooShort, Next.none, Next.callable]
+  · unfold parseICMPv6; split <;> simp [tooShort, Next.none, Next.callable]
+
+/-- ICMP type / code come from the first ICMP layer only -/
+theorem icmp_first_only (m : FlowMsg) (d : Bytes) (pc : PC) (h : pc.calls ≠ 0) :
+    (parseICMP m d pc).msg.icmpType = m.icmpType ∧ (parseICMP m d pc).msg.icmpCode = m.icmpCode := by
+  unfold parseICMP; split <;> simp [tooShort, addLayer, h]
+
+/-- which transitions mark the rest of the frame as encapsulated: exactly a next layer that is not
+    EncapSkip and whose layer index is not above the current one — GRE / IP-in-IP / IPv6-in-IP and
+    a second Ethernet header for the frames of the grammar; 802.1Q, MPLS and the IPv6 fragment
+    header never do -/
+theorem encap_rule :
+    (∀ cur ∈ [Parser.ipv4, Parser.ipv6, Parser.ipv6route, Parser.ipv6frag],
+      ∀ nxt ∈ [Parser.ipv4, Parser.ipv6], (!nxt.encapSkip && decide (nxt.layerIndex ≤ cur.layerIndex)) = true) ∧
+    (∀ cur ∈ [Parser.gre], ∀ nxt ∈ [Parser.ethernet, Parser.ipv4, Parser.ipv6],
+      (!nxt.encapSkip && decide (nxt.layerIndex ≤ cur.layerIndex)) = true) ∧
+    (∀ cur ∈ allParsers, ∀ nxt ∈ [Parser.dot1q, Parser.mpls, Parser.ipv6frag],
+      (!nxt.encapSkip && decide (nxt.layerIndex ≤ cur.layerIndex)) = false) ∧
+    (∀ cur ∈ [Parser.ethernet, Parser.dot1q, Parser.mpls], ∀ nxt ∈ [Parser.ipv4, Parser.ipv6],
+      (!nxt.encapSkip && decide (nxt.layerIndex ≤ cur.layerIndex)) = false) ∧
+    (∀ cur ∈ [Parser.ipv4, Parser.ipv6],
+      ∀ nxt ∈ [Parser.tcp, Parser.udp, Parser.icmp, Parser.icmpv6, Parser.gre, Parser.ipv6route],
+      (!nxt.encapSkip && decide (nxt.layerIndex ≤ cur.layerIndex)) = false) ∧
+    (∀ cur ∈ [Parser.ipv6route, Parser.ipv6frag],
+      ∀ nxt ∈ [Parser.tcp, Parser.udp, Parser.icmp, Parser.icmpv6, Parser.gre],
+      (!nxt.encapSkip && decide (nxt.layerIndex ≤ cur.layerIndex)) = false) := by
+  decide
+
+/-- layer sizes of the fixed-size headers; TCP reports its data offset -/
+theorem layer_sizes (m : FlowMsg) (d : Bytes) (pc : PC) :
+    (14 ≤ d.length → (parseEthernet m d pc).size = 14) ∧ (4 ≤ d.length → (parse8021Q m d pc).size = 4) ∧
+    (20 ≤ d.length → (parseIPv4 m d pc).size = 20) ∧ (40 ≤ d.length → (parseIPv6 m d pc).size = 40) ∧
+    (8 ≤ d.length → (parseUDP m d pc).size = 8) ∧ (8 ≤ d.length → (parseIPv6HeaderFragment m d pc).size = 8) ∧
+    (20 ≤ d.length → (parseTCP m d pc).size = 4 * ((d.getD 12 0).toNat / 16)) := by
+  refine ⟨?_, ?_, ?_, ?_, ?_, ?_, ?_⟩ <;> intro h
+  · unfold parseEthernet; simp [Nat.not_lt.mpr h]
+  · unfold parse8021Q; simp [Nat.not_lt.mpr h]
+  · unfold parseIPv4; simp [Nat.not_lt.mpr h]
+  · unfold parseIPv6; simp [Nat.not_lt.mpr h]
+  · unfold parseUDP; simp [Nat.not_lt.mpr h]
+  · unfold parseIPv6HeaderFragment; simp [Nat.not_lt.mpr h]
+  · unfold parseTCP; simp [Nat.not_lt.mpr h, u8, Nat.mul_comm]
+
+end Goflow.C10
